@@ -250,6 +250,20 @@ def lcg_deck_scene(n, k, d, amp, seed):
     return rows
 
 
+def lcg_bimodal_scene(n, d, amp, seed, frac):
+    """One ceilometer, n stamps, a deck near 1900 ft and a second mode d ft above it (share frac), triangular noise of amplitude amp
+    quantised to 10 ft (own LCG, no RNG). The scenes listed in WAIC were found by exhaustive search (scratch/findaic.py, 720 scenes): the
+    mixture step splits them under the AIC score and not under the (default) BIC score."""
+    g = _lcg(seed)
+    rows = []
+    for t in range(n):
+        dt = 0.0 - 15. * (n - 1 - t)
+        base = 1900. + (d if (next(g) < frac) else 0.)
+        rows.append(['a', dt, base + 10 * round(amp / 10 * (next(g) + next(g) + next(g) - 1.5)), 1])
+    return rows
+
+
+WAIC = [(60, 250, 90, 9, 0.5), (60, 275, 120, 0, 0.5), (80, 250, 90, 2, 0.5)]
 W119 = [(40, 1, 300, 30, 11), (40, 3, 250, 30, 28), (60, 2, 250, 30, 29), (60, 2, 350, 30, 29), (40, 3, 350, 30, 28)]
 
 
@@ -275,6 +289,8 @@ def build(spec):
         return id_alloc_scene(spec['S'], spec.get('pos', 0))
     if g == 'lcgdeck':
         return lcg_deck_scene(*spec['args'])
+    if g == 'lcgbimodal':
+        return lcg_bimodal_scene(*spec['args'])
     if g == 'demo':
         from ampycloud.utils import mocker
         return rows_of(mocker.canonical_demo_data())
